@@ -1,8 +1,12 @@
+//go:build verif
+
 package checks
 
 import (
 	"fmt"
 	"os"
+
+	"github.com/hashicorp/go-bexpr/grammar"
 
 	"verifmc/eng"
 	"verifmc/pegcmp"
@@ -10,11 +14,12 @@ import (
 
 func init() {
 	eng.Register(&eng.Check{
-		ID:          "C20",
-		Rule:        "E6 rule-graph product walk (complete, no bound): grammar.peg is read with the harness's own PEG-syntax reader, grammar.go with go/parser; every rule (name, order, display name) and every expression node of both are walked in lockstep (node kind, alternatives, sequences, labels, & ! ? * +, literals + case flag, rule references, code predicates); for every character class membership of ALL 1 114 112 runes is compared (own class-syntax reader vs the table's chars/ranges/classes/inverted/ignoreCase); every action / predicate code block is compared with the on* function body after go/printer normalisation, its parameter list with the labels in scope and the callon* wrapper's argument order; no rule, on* or callon* function may be left unmatched. states = node pairs, transitions = child edges + rune membership checks; non-trivial = node pairs compared (every pair carries content). Source positions and display-only strings are reported, not judged.",
-		Assumptions: []string{"complete structural comparison of the two files in /repo's working tree; the PEG engine part of grammar.go (generic pigeon runtime) is exercised behaviourally by C15/C10/C11"},
-		Run:         runC20,
-		Workers:     1,
+		ID:           "C20",
+		Rule:         "E6 rule-graph product walk (complete, no bound): grammar.peg is read with the harness's own PEG-syntax reader, grammar.go with go/parser; every rule (name, order, display name) and every expression node of both are walked in lockstep (node kind, alternatives, sequences, labels, & ! ? * +, literals + case flag, rule references, code predicates); for every character class membership of ALL 1 114 112 runes is compared (own class-syntax reader vs the table's chars/ranges/classes/inverted/ignoreCase); every action / predicate code block is compared with the on* function body after go/printer normalisation, its parameter list with the labels in scope and the callon* wrapper's argument order; no rule, on* or callon* function may be left unmatched; in addition every class matcher of the rule table AS IT EXISTS AT RUN TIME (read through an accessor added by the generated overlay, so the unicode tables are the ones the engine's helper really returned) is compared with grammar.peg on all runes. states = node pairs, transitions = child edges + rune membership checks; non-trivial = node pairs compared (every pair carries content). Source positions and display-only strings are reported, not judged.",
+		Assumptions:  []string{"complete structural comparison of the two files in /repo's working tree; the PEG engine part of grammar.go (generic pigeon runtime) is exercised behaviourally by C15/C10/C11"},
+		Run:          runC20,
+		Workers:      1,
+		NeedsOverlay: "add",
 	})
 }
 
@@ -43,6 +48,18 @@ func runC20(c *eng.Ctx) {
 	}
 	for _, p := range problems {
 		c.Violate(eng.Violation{Kind: "grammar-table-differs", Key: p.Path + ": " + firstLine(p.Msg), Detail: p.Msg})
+	}
+	// the rule table as it exists at run time (unicode tables really returned by the engine's helper), all runes again
+	var rt []pegcmp.RuntimeClass
+	for _, vc := range grammar.VerifClasses() {
+		rt = append(rt, pegcmp.RuntimeClass{Val: vc.Val, Chars: vc.Chars, Ranges: vc.Ranges, Tables: vc.Classes, IgnoreCase: vc.IgnoreCase, Inverted: vc.Inverted})
+	}
+	n, rp := pegcmp.CompareRuntimeClasses(repoDir(), rt)
+	c.R.Transitions += int64(n)
+	c.MaxOf("runtime_class_matchers", int64(len(rt)))
+	c.MaxOf("runtime_rune_membership_checks", int64(n))
+	for _, p := range rp {
+		c.Violate(eng.Violation{Kind: "runtime-class-differs", Key: p.Path + ": " + firstLine(p.Msg), Detail: p.Msg})
 	}
 	if st.Pairs == 0 && len(problems) == 0 {
 		c.Violate(eng.Violation{Kind: "nothing-compared", Key: "no node pairs", Detail: fmt.Sprint(st)})
